@@ -12,6 +12,45 @@ TEXT = {
  },
 }
 
+TEXT.update({
+ "C07": {
+  "engine": "K",
+  "technique": "bounded model checking (Kani/CBMC) of StatefulDecoder::read_value* with symbolic source bytes and a concrete odd declared length per harness",
+  "level": "For each binary VR reader (us, ss, ul, sl, uv, sv, fl, od, ob and the OW/OL/OV/OF/FD/UN aliases) and each of the three value-read strategies the solver "
+           "decides, for ALL source bytes, that a successful read consumes exactly the declared odd length and that position() equals the bytes consumed. "
+           "This is the kernel of the property; the token-level strategies (NextEven/Fail) are a table lookup on top of it.",
+  "note": "text VR readers (strs, cs, da, dt, tm, ds, is) and AT are NOT covered: measured > 8 GB / 6-13 min each in CBMC (DESIGN §3 C07); "
+          "dictionary lookup and tracing stubbed; inert-backtrace snafu",
+ },
+ "C11": {
+  "engine": "M",
+  "technique": "symbolic execution of the rustc MIR of PrimitiveValue::to_multi_int (+closures) with z3 bit-vectors; native replay of every model",
+  "level": "For every (source variant, target integer type) pair and 0, 1, 2 full-width symbolic items the solver shows on every feasible path: Ok(list) has one exact "
+           "value per item in order, Err only if some item is not representable, an empty value gives an empty list. Kani ran out of memory (23 GB) on the same function.",
+  "note": "bounded to 2 items; textual sources, float conversions, extend/truncate not encoded; NumCast modelled by its documented contract; contract table in evidence",
+ },
+ "C15": {
+  "engine": "M",
+  "technique": "symbolic execution of the MIR of StandardDataDictionary::indexed_tag over the registry built by running the MIR of index() on the parsed table; z3 decides equality with the published precedence for one symbolic 32-bit tag",
+  "level": "Exhaustive over all 2^32 tags by solver (not by enumeration): indexed_tag(tag) equals the statement's precedence list evaluated on the table parsed from tags.rs, on all 8 paths; "
+           "keyword lookup and constants checked for every table entry.",
+  "note": "HashMap/HashSet/Lazy are contracts (finite maps / initialiser value); SOP class dictionary not encoded; one witness tag per path cross-checked against the real by_tag",
+ },
+ "C17": {
+  "engine": "M",
+  "technique": "symbolic execution of the MIR of PersonName::to_dicom_string and PersonName::from_text (+6 closures), presence bits and component bytes symbolic, z3",
+  "level": "All 32 presence combinations are one symbolic query family (forked into up to 32 feasible paths); on each the solver shows print->parse returns the same components for ALL component "
+           "bytes satisfying the precondition, for component lengths 1-3.",
+  "note": "17 string/iterator contracts (listed in evidence) are trusted; every run cross-checks printed text and parse result against the real functions on solver-chosen inputs",
+ },
+ "C36": {
+  "engine": "M",
+  "technique": "symbolic execution of the MIR of Display/FromStr for FullAeAddr<T> and AeAddr<T> at T = String, z3 over symbolic title/address bytes",
+  "level": "print->parse identity decided for all titles (no '@') and all addresses (may contain '@') of 1-3 bytes, with and without title.",
+  "note": "T = SocketAddr not encoded (std); string contracts trusted and cross-checked natively per run",
+ },
+})
+
 _NOTYET = "check not built yet in this session (design in DESIGN.md §3); not claimed until its harness has produced a verdict"
 NOT_APPLICABLE = {p: _NOTYET for p in ["C%02d" % i for i in range(1, 37)]}
 NOT_APPLICABLE.update({
